@@ -212,7 +212,7 @@ def ncores() -> int:
     return max(1, min(16, int(os.environ.get("VERIF_WORKERS", n))))
 
 
-def parallel(fn, shards, workers: int | None = None):
+def parallel(fn, shards, workers: int | None = None, pin: bool = False):
     """Run fn(shard) for every shard in forked children (inheriting the bootstrapped
     interpreter); returns results in shard order.  A child that dies or raises makes the
     whole run a HarnessError (never a silent pass)."""
@@ -225,13 +225,25 @@ def parallel(fn, shards, workers: int | None = None):
     workers = workers or ncores()
     if workers <= 1 or len(shards) == 1:
         return [fn(s) for s in shards]
+    import gc
+
+    gc.collect()
+    gc.freeze()  # keep the bootstrapped heap out of the children's collections: avoids copy-on-write storms
     ctx = mp.get_context("fork")
     results: list = [None] * len(shards)
     pending = list(enumerate(shards))
     running: dict = {}
     errors = []
 
+    cpus = sorted(os.sched_getaffinity(0)) if hasattr(os, "sched_getaffinity") else []
+
     def _child(idx, shard, conn):
+        if pin and cpus:
+            # baton-passing threads of one worker stay on one core: avoids cross-CPU wake-up latency
+            try:
+                os.sched_setaffinity(0, {cpus[idx % len(cpus)]})
+            except OSError:
+                pass
         try:
             res = ("ok", fn(shard))
         except BaseException:  # noqa
